@@ -7,7 +7,6 @@ use syn::spanned::Spanned;
 
 pub struct SignatureConverter<'a> {
     pub crate_idents: &'a CrateIdents,
-    #[expect(unused)]
     pub trait_span: Span,
     #[expect(unused)]
     pub opts: &'a Opts,
@@ -125,7 +124,7 @@ impl SignatureConverter<'_> {
 
     fn gen_self_receiver(
         &self,
-        span: Span,
+        _: Span,
         reference: Option<(syn::token::And, Option<syn::Lifetime>)>,
     ) -> syn::FnArg {
         let ty = match reference {
@@ -137,7 +136,9 @@ impl SignatureConverter<'_> {
             attrs: vec![],
             reference,
             mutability: None,
-            self_token: syn::token::SelfValue(span),
+            // the delegating body names the receiver with the trait's span: declare it with the same one, or the two
+            // `self` tokens end up in different hygiene contexts when the invocation is assembled by a `macro_rules!` macro
+            self_token: syn::token::SelfValue(self.trait_span),
             colon_token: None,
             ty,
         })
@@ -145,8 +146,9 @@ impl SignatureConverter<'_> {
 
     fn gen_impl_receiver(&self, _: Span, lifetime: Option<syn::Lifetime>) -> syn::FnArg {
         let entrait = &self.crate_idents.entrait;
+        let impl_ident = syn::Ident::new("__impl", self.trait_span);
         syn::parse_quote! {
-            __impl: & #lifetime ::#entrait::Impl<EntraitT>
+            #impl_ident: & #lifetime ::#entrait::Impl<EntraitT>
         }
     }
 
